@@ -24,3 +24,4 @@ PROPERTY LateBindAgrees
 PROPERTY ConstructAgrees
 PROPERTY ValuesDoNotMatter
 PROPERTY RebindOrderFree
+PROPERTY CloneIsolated
